@@ -18,5 +18,6 @@ open Martian.Props.C19
 #print axioms messageFrames_key
 #print axioms messageFrames_valid
 #print axioms logged_message_roundtrip
+#print axioms nobody_request_is_empty_body
 #print axioms exA
 #print axioms exB
